@@ -288,7 +288,8 @@ PROPS = {
         "engine": "tasksim",
         "level": "exploration",
         "budget": {"quick": 60, "thorough": 900},
-        "rule": "one run = one real pubsub engine in the relay role (node; 0-2 other responsible nodes) and 1-2 real pubsub engines in the client role (accounts A, B), each with its private stream pool, dial pool, dispatch loop and resync loop on the fake clock; a harness membership table (accounts A, B, C x spaces sA, sB) that changes during the run. "
+        "race_leg": True,
+        "rule": "one run = one real pubsub engine in the relay role (node; 0-2 other responsible nodes) and 1-2 real pubsub engines in the client role (accounts A, B), each with its private stream pool, dial pool, dispatch loop and resync loop on the fake clock; a harness membership table (accounts A, B, C x spaces sA, sB) that changes during the run; in 15% of runs the node has no membership checker (every proven identity may subscribe and publish). "
                 "40-260 actions: the seeded scheduler runs one goroutine up to its next blocking point (every MsgRecv/MsgSend of every stream end and the yield points inside the engine and the pool: before each lock of handleSubscribe/handleUnsubscribe/fanout/evict/CloseSpace/onStreamClose, between dropping interest and dropping tags, addStream/removeStream/streamClose/Broadcast/SendById/getStreams); "
                 "remotes open streams to the node (accounts A/B/C, a second device of an account, an unverified peer, another responsible node) and send subscribe frames (1-3 valid patterns over the segment alphabet {a, b, acc, account ids, *, >}; invalid patterns: empty, leading/trailing/doubled separator, wildcard in the middle of a segment, '>' not last, 17 segments, 257 bytes; bad or foreign space ids), unsubscribe frames (one pattern, all, unknown), "
                 "publish frames (well-formed; invalid topic, short id, oversized, someone else's acc/ topic, identity replaced or missing, damaged signature, relayed flag from non-nodes, relayed messages from other nodes, foreign space), status/empty frames; remotes close; node writes fail; the node calls EvictMember / RevalidateMembers / CloseSpace; "
@@ -299,7 +300,7 @@ PROPS = {
                 "after teardown in a seeded order (unsubscribe or CloseSpace per client and space, then every stream ends) node and clients hold no tries, records, tags, streams or counters. evaluations = node state comparisons.",
         "assumptions": COMMON_ASSUMPTIONS + ["interleavings at the granularity of harness blocking points and the verif yield points; regions between two points are atomic (no lock is held at a yield)",
                                              "rate limiting and pattern caps are configured out of reach; dedup ring larger than the run (ring eviction, which by design re-admits old ids inside the skew window, is not exercised)",
-                                             "payload encryption (Deps.Crypto) is not wired: keyless spaces", "a subscribe frame is either all valid or carries one invalid pattern (the statement does not say what a mixed frame registers)"],
+                                             "payload encryption (Deps.Crypto) is not wired: keyless spaces", "each dial pool has one worker (two anonymous workers reaching the same yield point at once cannot be told apart deterministically; the pool's own concurrency is C19's subject); engines start 7 ms apart so their periodic timers never fire at the same fake instant", "account keys are derived from the seeded byte stream (Go's key generation deliberately defeats seeding)", "a subscribe frame is either all valid or carries one invalid pattern (the statement does not say what a mixed frame registers)"],
         "technique": "deterministic simulation: seeded task scheduler over real relay and client pubsub engines with harness-owned streams, membership, clock, faults (remote close, write errors, evictions, hostile relay); reference model stepped at the scheduling points, delivery/forward/handler-call oracles and three-view state agreement after every grant, leak check after teardown",
         "level_text": "Seeded exploration of interleavings x histories x topic/pattern inputs over the real engines; a reference model from the property text decides every delivery, forward and handler call, and the engine's bookkeeping is compared with it after every scheduler grant.",
         "level_note": "pubsub engine, trie, dedup, signatures, stream pool and mb queues real; streams, peers, membership, relay topology are harness stubs; scheduler granularity = yield points",
